@@ -107,6 +107,18 @@ func (w *World) onWire(kind string, v any, enc []byte) {
 		if db.ID() != b.ID() {
 			w.violate("C18", "block-id-after-roundtrip", fmt.Sprintf("block %s has ID %s after decode(encode())", short(b.ID()), short(db.ID())))
 		}
+		// the same block as its miner holds it, stamped by a clock that knows
+		// fractions of a second: its ID (which is over whole seconds) is the ID of what arrives
+		if w.tape.Chance(1, 3) {
+			mb := b
+			mb.Timestamp = b.Timestamp.Add(time.Duration(w.tape.Range(1, 999999999)))
+			if mb.ID() == b.ID() {
+				if sb, err := decodeBlockSafe(encodeBlock(mb)); err != nil || sb.ID() != b.ID() {
+					w.violate(w.propAmong("C18", "C11"), "block-id-after-roundtrip", fmt.Sprintf("block %s stamped %v: after decode(encode()) it has ID %s and timestamp %v (%v)", short(b.ID()), mb.Timestamp.UTC().Format("15:04:05.000000000"), short(sb.ID()), sb.Timestamp.UTC().Format("15:04:05.000000000"), err))
+				}
+				w.stats.Inc("probe.wire.sub-second-block")
+			}
+		}
 		if b.V2 != nil && len(b.V2.Transactions) > 0 {
 			w.stats.Inc("probe.wire.multiproof")
 			if b.V2.Commitment != db.V2.Commitment {
